@@ -1,3 +1,4 @@
 import PydjinniModel.Props.C05
 import PydjinniModel.Props.C05Front
+import PydjinniModel.Props.C05Spec
 /-! All C05 theorems. -/
